@@ -268,9 +268,9 @@ def run_coq_cases(prop, imports, exprs, shard=400, timeout=900):
     for k in range(0, len(exprs), shard):
         fn = os.path.join(rundir, f"cases_{k // shard}.v")
         with open(fn, "w") as fh:
-            fh.write(imports + "\nImport ListNotations.\n")
-            fh.write("Definition results : list (nat * bool) := [\n")
-            fh.write(";\n".join(f" ({k + j}%nat, {e})" for j, e in enumerate(exprs[k:k + shard])))
+            fh.write(imports + "\nFrom Coq Require Import ZArith List.\nImport ListNotations.\n")
+            fh.write("Definition results : list (Z * bool) := [\n")
+            fh.write(";\n".join(f" ({k + j}%Z, {e})" for j, e in enumerate(exprs[k:k + shard])))
             fh.write("\n].\n")
             fh.write("Eval vm_compute in (List.map fst (List.filter (fun p => negb (snd p)) results)).\n")
         files.append(fn)
@@ -299,13 +299,13 @@ def run_coq_cases(prop, imports, exprs, shard=400, timeout=900):
         if rc != 0:
             errs.append(f"{os.path.basename(fn)}: coqc exit {rc}: {out[-1500:]}")
             continue
-        m = re.search(r"=\s*\[(.*?)\]\s*:\s*list nat", out, re.S)
+        m = re.search(r"=\s*\[(.*?)\]\s*:\s*list Z", out, re.S)
         if not m:
             errs.append(f"{os.path.basename(fn)}: cannot parse: {out[-500:]}")
             continue
         body = m.group(1).strip()
         if body:
-            failing += [int(x.replace("%nat", "").strip()) for x in body.split(";")]
+            failing += [int(x.replace("%Z", "").replace("(", "").replace(")", "").strip()) for x in body.split(";")]
     if not errs and not os.environ.get("VERIF_KEEP"):
         shutil.rmtree(rundir, ignore_errors=True)
     return sorted(failing), ("\n".join(errs) if errs else None)
